@@ -6,6 +6,8 @@
 //! * `h-c04 --tier T --seed S --out DIR`: correspondence + oracle run (see `run.rs`).
 mod gates;
 mod gen;
+mod mapops;
+mod oracles;
 mod prog;
 mod rec;
 mod run;
